@@ -432,6 +432,7 @@ func (e *expression) Value(ctx *hcl.EvalContext) (cty.Value, hcl.Diagnostics) {
 		attrs := map[string]cty.Value{}
 		attrRanges := map[string]hcl.Range{}
 		known := true
+		var marks []cty.ValueMarks
 		for _, jsonAttr := range v.Attrs {
 			// In this one context we allow keys to contain interpolation
 			// expressions too, assuming we're evaluating in interpolation
@@ -471,6 +472,10 @@ func (e *expression) Value(ctx *hcl.EvalContext) (cty.Value, hcl.Diagnostics) {
 				})
 				continue
 			}
+			// The key's marks move to the object as a whole, as in the
+			// native syntax, since an attribute name cannot carry marks.
+			name, nameMarks := name.Unmark()
+			marks = append(marks, nameMarks)
 			if !name.IsKnown() {
 				// This is a bit of a weird case, since our usual rules require
 				// us to tolerate unknowns and just represent the result as
@@ -501,9 +506,9 @@ func (e *expression) Value(ctx *hcl.EvalContext) (cty.Value, hcl.Diagnostics) {
 		if !known {
 			// We encountered an unknown key somewhere along the way, so
 			// we can't know what our type will eventually be.
-			return cty.DynamicVal, diags
+			return cty.DynamicVal.WithMarks(marks...), diags
 		}
-		return cty.ObjectVal(attrs), diags
+		return cty.ObjectVal(attrs).WithMarks(marks...), diags
 	case *nullVal:
 		return cty.NullVal(cty.DynamicPseudoType), nil
 	default:
